@@ -43,6 +43,54 @@ PASS_THROUGH = (
 )
 
 
+PROGRAM = None  # set by vlib.mir.Program so that closure bodies can be looked up by id
+
+
+def _beta_reduce(body, t, depth):
+    if PROGRAM is None or depth <= 0:
+        return None
+    f = t.get("func")
+    pl = op_place(f) if isinstance(f, dict) else None
+    hops = 0
+    clo = None
+    while pl is not None and hops < 8:
+        hops += 1
+        sd = body.single_def(pl["l"]) if not pl["p"] or pl["p"] == ["*"] else None
+        if sd is None or sd[1] == "term":
+            return None
+        rv = sd[2]
+        if rv["k"] == "agg" and rv.get("ak") == "closure":
+            clo = rv.get("closure")
+            break
+        if rv["k"] in ("use", "cast"):
+            pl = op_place(rv["op"])
+        elif rv["k"] in ("ref", "rawptr"):
+            pl = rv["place"]
+        else:
+            return None
+    cb = PROGRAM.bodies.get(clo) if clo else None
+    if cb is None or len(t["args"]) != cb.arg_count - 1:
+        return None
+    r = describe_place(cb, {"l": 0, "p": []}, 6)
+    args = [describe(body, a, depth - 1) for a in t["args"]]
+
+    def subst(v):
+        if v.kind == "place":
+            m = __import__("re").fullmatch(r"_(\d+)", v.v)
+            if m and 2 <= int(m.group(1)) <= cb.arg_count:
+                return args[int(m.group(1)) - 2]
+            return None
+        if v.kind == "const":
+            return v
+        if v.kind in ("binop", "unop"):
+            sub = [subst(a) for a in v.args]
+            return None if any(x is None for x in sub) else Val(v.kind, v.v, sub)
+        return None
+
+    return subst(r)
+
+
+
 def describe(body, op, depth=30):
     """symbolic value of an operand, chasing single-def temporaries"""
     c = op_const(op)
@@ -98,6 +146,11 @@ def describe_place(body, pl, depth=30):
                         if name in PASS_THROUGH and args:
                             return args[0]
                         return Val("call", name, args)
+                    # a call through a local: when the local is a closure (possibly coerced to a fn pointer) whose body is one
+                    # arithmetic / comparison operation on its parameters, it is that operation on the arguments
+                    red = _beta_reduce(body, t, depth)
+                    if red is not None:
+                        return red
                     return Val("call", "<indirect>")
                 rv = sd[2]
                 if rv["k"] == "use":
@@ -129,6 +182,16 @@ def describe_place(body, pl, depth=30):
             idx = pl["p"][0]["f"]
             if idx < len(sd[2]["ops"]):
                 return describe(body, sd[2]["ops"][idx], depth - 1)
+    # a longer path that starts at a field of a freshly built tuple: continue from the operand stored in that field
+    # (`let (Some(a), Some(b)) = (x.f, y.g)` reads `(_t.0 as Some).0`, which is `(x.f as Some).0`)
+    if len(pl["p"]) > 1 and isinstance(pl["p"][0], dict) and "f" in pl["p"][0] and (pl["l"] > body.arg_count or pl["l"] == 0):
+        sd = body.single_def(pl["l"])
+        if sd is not None and sd[1] != "term" and sd[2]["k"] == "agg" and sd[2].get("ak") == "tuple":
+            idx = pl["p"][0]["f"]
+            if idx < len(sd[2]["ops"]):
+                inner = op_place(sd[2]["ops"][idx])
+                if inner is not None:
+                    return describe_place(body, {"l": inner["l"], "p": list(inner["p"]) + list(pl["p"][1:])}, depth - 1)
     rp = body.root_place(pl)
     return Val("place", place_str(rp))
 
